@@ -69,3 +69,10 @@ Definition padded_path (n1 n2 : nat) (steps : list rstep) : list N := blanks n1 
 Definition fun_text (f : list N) : list N := 46 :: f ++ [40; 41].
 Definition render_funs (fs : list (list N)) : list N := flat_map fun_text fs.
 Definition chain_fun_path (steps : list rstep) (fs : list (list N)) : list N := chain_path steps ++ render_funs fs.
+
+(* a step of a path, or an existence filter over a path of steps: [?(@ steps)] *)
+Definition filt_text (isteps : list rstep) : list N := [91; 63; 40; 64] ++ render_steps isteps ++ [41; 93].
+Inductive fstep := FS (x : rstep) | FE (isteps : list rstep).
+Definition render_fstep (x : fstep) : list N := match x with FS y => render_rstep y | FE i => filt_text i end.
+Definition render_fsteps (l : list fstep) : list N := flat_map render_fstep l.
+Definition fchain_path (l : list fstep) : list N := 36 :: render_fsteps l.
